@@ -112,6 +112,30 @@ def owedNode (s : State) : Int :=
 def solventOrder (e : Env) (s : State) : Bool := s.bal e.modOrder ≥ owedOrder s
 def solventNode (e : Env) (s : State) : Bool := s.bal e.modNode ≥ owedNode s
 
+/-! ### C11 retention -/
+/-- a data model never disappears while a paid, unexpired completed shard of it remains -/
+def modelOutlivesShards (s : State) : Bool :=
+  s.shards.all (fun sh => sh.status ≠ ShardCompleted || (addU64 sh.createdAt sh.duration : Int) ≤ s.h ||
+    (match s.getOrder sh.orderId with
+     | some o => (s.getMeta o.dataId).isSome
+     | none => true))
+
+/-- a completed shard keeps its provider's capacity, collateral and income: pledge and worker exist -/
+def shardBacked (s : State) : Bool :=
+  s.shards.all (fun sh => sh.status ≠ ShardCompleted || ((s.getPledge sh.sp).isSome && (s.getWorker sh.sp).isSome))
+
+/-- no completed shard is still around after the end of its paid period (released exactly then) -/
+def noOverdueShard (s : State) : Bool :=
+  s.shards.all (fun sh => sh.status ≠ ShardCompleted || s.h ≤ (addU64 sh.createdAt sh.duration : Int))
+
+/-! ### C04 payment conservation at quiescence -/
+/-- when no order and no shard is left, the order escrow is empty and the market escrow holds only
+    unclaimed provider income plus rounding dust (less than one coin per shard settlement) -/
+def escrowsSettled (e : Env) (s : State) : Bool :=
+  !(s.orders.isEmpty && s.shards.isEmpty) ||
+  (s.bal e.modOrder = 0 &&
+   s.bal e.modMarket * precision ≤ sumInt (s.workers.map (·.reward)) + ((s.shardCount + s.getOrderCount : Nat) : Int) * precision)
+
 /-! ### C17 DID registry integrity -/
 /-- an account id is bound to at most one DID -/
 def didFunctional (d : DidState) : Bool :=
